@@ -144,7 +144,7 @@ class H:
                 b = lo + 3.0
             if hi is not None and lo is None:
                 a = hi - 3.0
-            return SR(v, None, None, core.SAMPLE_RNG.uniform(a, b, core.K_SAMPLES))
+            return SR(v, None, None, core.seeded_samples(name, core.SAMPLE_RNG.uniform(a, b, core.K_SAMPLES)))
         return self._value(name, sampler)
 
     def vec(self, name, n, lo=None, hi=None):
@@ -165,6 +165,9 @@ class H:
             v = self.vec(name, n, -1, 1)
             g = core.SAMPLE_RNG.standard_normal((n, core.K_SAMPLES))
             g = g / _np.sqrt((g * g).sum(axis=0))
+            if getattr(CTX, 'seed_env', None):
+                g = _np.array([core.seeded_samples(f"{name}{i}", g[i]) for i in range(n)])
+                g = g / _np.sqrt((g * g).sum(axis=0))
             for i in range(n):
                 v[i].fv = g[i]
             s = 0.0
@@ -200,6 +203,7 @@ class H:
             x.fv = core.SAMPLE_RNG.uniform(rl, rh, core.K_SAMPLES) * (1.0 if unit == 'rad' else math.pi / 180.0)
             if unit != 'rad':
                 x.fv = x.fv * (180.0 / math.pi)
+            x.fv = core.seeded_samples(name, x.fv)
             CTX.inputs[name] = x.t
             if lo is not None:
                 CTX.domain.append(x.t >= lift(lo))
